@@ -207,6 +207,7 @@ type svcEnv struct {
 	embNext    int
 	closed     bool
 	seq        uint64
+	wedged     bool // an apply is blocked for good: the rest of the case is skipped
 }
 
 func (x *svcEnv) teardown() {
@@ -260,6 +261,7 @@ func openSvcEngine(dir string, mem int) (*engine.EngineFacade, error) {
 }
 
 func (x *svcEnv) open(ws []string) string {
+	x.wedged = false
 	x.teardown()
 	kv := map[string]string{"mode": "none", "ro": "0", "mem": "1048576", "big": "0"}
 	for _, w := range ws[1:] {
@@ -975,6 +977,9 @@ func (x *svcEnv) step(ws []string) (out string) {
 	if x.a == nil {
 		return "not-open"
 	}
+	if x.wedged {
+		return "skipped" // after a blocked apply the engines are wedged: nothing more can be said about this case
+	}
 	line := func(s, e string, pre string) string {
 		o := "svc=" + s + " emb=" + e
 		if strings.HasPrefix(s, "err:") || strings.HasPrefix(e, "err:") {
@@ -1008,10 +1013,19 @@ func (x *svcEnv) step(ws []string) (out string) {
 		mk := func() *wal.Entry {
 			return &wal.Entry{SequenceNumber: x.seq, Type: uint8(t), Key: bx(ws[2]), Value: bx(ws[3])}
 		}
-		s, e := errOf(x.appA.Apply(mk())), errOf(x.appB.Apply(mk()))
-		svcQuiesce(x.a)
-		svcQuiesce(x.b)
-		return line(s, e, pre)
+		// a replicated apply must never wait for client transactions (C16: the replica keeps applying): 5 s watchdog
+		type res struct{ s, e string }
+		done := make(chan res, 1)
+		go func() { done <- res{errOf(x.appA.Apply(mk())), errOf(x.appB.Apply(mk()))} }()
+		select {
+		case r := <-done:
+			svcQuiesce(x.a)
+			svcQuiesce(x.b)
+			return line(r.s, r.e, pre)
+		case <-time.After(5 * time.Second):
+			x.wedged = true
+			return "svc=err:apply-blocked emb=- (a replicated entry was not applied within 5 s: the applier waits for something a client holds)"
+		}
 	case "readonly":
 		x.a.SetReadOnly(ws[1] == "on")
 		x.b.SetReadOnly(ws[1] == "on")
